@@ -13,3 +13,4 @@ INVARIANT Narrowing
 INVARIANT QuiescentIsDefault
 PROPERTY Restores
 PROPERTY Isolation
+PROPERTY RefusedIsNoop
